@@ -142,6 +142,16 @@ def check_C01(ctx):
         srcs.append(b"print " + b"not " * d + b"1\n")
         srcs.append(b"print 1" + b" and 1" * d + b"\n")
         srcs.append(b"print 0" + b" or 0" * d + b" or 5\n")
+    # short circuit over long right operands: the jump distance needs its high byte (>= 256) and, at the limit, 16 bits
+    for n in [100, 127, 128, 129, 200, 300, 1000] + ([32766, 32767, 32768, 32769] if ctx.thorough else [32767, 32768]):
+        big = b"(1" + b"+1" * n + b")"
+        for e in [b"false and " + big, b"true and " + big, b"7 or " + big, b"0 or " + big, b"nil and " + big + b" or 5",
+                  b'"" or ' + big + b" and 2"]:
+            srcs.append(b"print " + e + b"\n")
+    for n in [40, 50, 100]:
+        cat = b"(" + b" + ".join(b'"s%d"' % i for i in range(n)) + b")"
+        srcs.append(b"def b { verbose = false\n banner = verbose and " + cat + b' or "none"\n print banner }\n')
+        srcs.append(b"def b { verbose = 1\n banner = verbose and " + cat + b' or "none"\n print banner }\n')
     cases = [dict(id="e%d" % i, src=s) for i, s in enumerate(srcs)]
     rs, missing, err = interp.run(ctx, cases)
     decide(ctx, rs, missing, err, {"out", "blocks", "binding", "err"}, "C01_eval", "expr", errclass_only=True)
@@ -377,6 +387,11 @@ def check_C04(ctx):
              b"def t {}\nbind t -> struct\nbind nosuch -> struct\n", b"bind -> struct\n", b"bind t struct\n",
              b"def t {}\nbind t:all -> struct\n", b"def t {}\nbind t:1 -> slice;bind t -> slice\n"]
     srcs += [blocks_program(rng, with_bind=True, inject_error=False) for _ in range(ctx.n(600, 6000))]
+    # the bound type's name deep in the constant pool: operand indices beyond 240 / 2287 need 2 / 3 bytes
+    for n in [100, 119, 120, 121, 125, 128, 300] + ([1200] if ctx.thorough else []):
+        big = b"def limits { " + b" ".join(b"f%d = %d" % (i, i + 2) for i in range(n)) + b" }\n"
+        srcs.append(big + b'def server "s" { x = 1 }\nbind server -> struct\n')
+        srcs.append(big + b'def server "s" { x = 1 }\ndef server "t" {}\nbind server:last -> slice\nbind limits -> struct\n')
     cases = [dict(id="k%d" % i, src=s) for i, s in enumerate(srcs)]
     rs, missing, err = interp.run(ctx, cases)
     decide(ctx, rs, missing, err, {"out", "blocks", "binding", "log"}, "C04_bind", "bind", errclass_only=True)
